@@ -1851,7 +1851,11 @@ func (m *Machine) ParseStates(states S) S {
 	}
 
 	if dups {
-		return slicesUniq(states)
+		// known states only
+		return slicesUniq(slicesFilter(states, func(name string, _ int) bool {
+			_, ok := seen[name]
+			return ok
+		}))
 	}
 	return slices.Collect(maps.Keys(seen))
 }
